@@ -714,10 +714,10 @@ def run(ctx):
         corpus_only = bool(os.environ.get("VERIF_CORPUS_ONLY"))
         scen = [scenario_from(dict(d, corpus=name, expect=expect)) for (name, expect, d) in CORPUS]
         if not corpus_only:
-            scen += [gen_scenario(ctx.rng) for _ in range(ctx.budget(220, 4000))]
+            scen += [gen_scenario(ctx.rng) for _ in range(ctx.budget(150, 4000))]
             # concurrent-upload family (drawn after the single-upload stream, so that stream is unchanged)
-            scen += [gen_concurrent(ctx.rng) for _ in range(ctx.budget(40, 800))]
-            scen += [gen_allocfail(ctx.rng) for _ in range(ctx.budget(50, 1000))]
+            scen += [gen_concurrent(ctx.rng) for _ in range(ctx.budget(30, 800))]
+            scen += [gen_allocfail(ctx.rng) for _ in range(ctx.budget(40, 1000))]
     lines, wants, cases = [], [], []
     for s in scen:
         concurrent = getattr(s, "kind", None) == "concurrent"
